@@ -23,6 +23,10 @@ TSALL = [C.IVLE, C.EVLE, C.EVBE, C.DEFL, "1.2.840.10008.1.2.4.50"]
 UNCOMP_LE = {C.IVLE, C.EVLE, C.DEFL}
 
 
+UPS_PUSH = "1.2.840.10008.5.1.4.34.6.1"
+UPS_FAMILY = ["1.2.840.10008.5.1.4.34.6.2", "1.2.840.10008.5.1.4.34.6.3", "1.2.840.10008.5.1.4.34.6.4", "1.2.840.10008.5.1.4.34.6.5"]   # Watch, Pull, Event, Query
+
+
 def budget(tier):
     if tier == "thorough":
         return {"runs": 8000, "wall": 2400, "selftest": 24, "shrink_s": 40}
@@ -43,14 +47,28 @@ def gen(rng, idx, tier):
     for ab in (C.CT, C.MR):
         if rng.randrange(3) == 0:
             roles.append([ab] + list(rng.choice([(True, True), (False, True), (True, False)])))
+    ups = rng.randrange(4) == 0
+    if ups:
+        # Unified Procedure Step: a UPS Push operation may travel on an accepted Watch/Pull/Event/Query context
+        # (documented substitution) - but only one on which the sender holds the SCU role
+        for ab in rng.sample([UPS_PUSH] + UPS_FAMILY, rng.randrange(1, 4)):
+            req.append([ab, [C.IVLE]])
+            sup.append([ab, [C.IVLE], True, True])
+            if rng.randrange(2):
+                roles.append([ab] + list(rng.choice([(True, True), (False, True), (True, False)])))
     ops = []
     for _ in range(rng.randrange(1, 4)):
-        o = rng.choice(["store", "store", "store", "find", "echo", "get"])
+        o = rng.choice(["store", "store", "store", "find", "echo", "get", "store_file"] + (["ups_nget", "ups_naction"] * 3 if ups else []))
         d = {"op": o}
-        if o == "store":
+        if o in ("store", "store_file"):
             d["cls"] = rng.choice([C.CT, C.CT, C.MR])
             d["ts"] = rng.choice(TSALL)
         ops.append(d)
+    if rng.randrange(6) == 0:
+        # an object sent from memory (may be converted between uncompressed little endian syntaxes) followed by the
+        # same object sent straight from its file (bytes go out as they are: needs the exact syntax)
+        cls, ts = rng.choice([C.CT, C.MR]), rng.choice([C.IVLE, C.EVLE])
+        ops = [{"op": "store", "cls": cls, "ts": ts}, {"op": "store_file", "cls": cls, "ts": ts}]
     return {"req": req, "sup": sup, "roles": roles, "ops": ops, "sched": {"switch_pct": rng.choice([5, 30])}, "net": C.gen_net(rng)}
 
 
@@ -92,7 +110,16 @@ def execute(sc, ctx):
     if not sc["sup"]:
         ctx.obs["skipped"] = "no supported contexts"
         return
-    ctx.start_server(scp, handlers=[(evt.EVT_C_STORE, on_store), (evt.EVT_C_FIND, on_find), (evt.EVT_C_GET, on_get)])
+    def on_n_get(event):
+        sim.record("handler", op="n_get")
+        return 0x0000, C.small_ds(2)
+
+    def on_n_action(event):
+        sim.record("handler", op="n_action")
+        return 0x0000, None
+
+    ctx.start_server(scp, handlers=[(evt.EVT_C_STORE, on_store), (evt.EVT_C_FIND, on_find), (evt.EVT_C_GET, on_get),
+                                    (evt.EVT_N_GET, on_n_get), (evt.EVT_N_ACTION, on_n_action)])
     scu = ctx.make_ae("SCU", acse=1.0, dimse=0.6, network=2.0)
     for ab, tss in sc["req"]:
         scu.add_requested_context(ab, tss)
@@ -113,6 +140,36 @@ def execute(sc, ctx):
                 ds.file_meta = FileMetaDataset()
                 ds.file_meta.TransferSyntaxUID = UID(op["ts"])
                 st = assoc.send_c_store(ds, msg_id=10 + i)
+                out = st.Status if st is not None and "Status" in st else "empty"
+            elif op["op"] == "store_file":
+                import os
+                import shutil
+                import tempfile
+                from pynetdicom import _config
+
+                ds = C.store_ds(i, sop_class=op["cls"])
+                ts = UID(op["ts"])
+                ds.file_meta = FileMetaDataset()
+                ds.file_meta.TransferSyntaxUID = ts
+                ds.file_meta.MediaStorageSOPClassUID = ds.SOPClassUID
+                ds.file_meta.MediaStorageSOPInstanceUID = ds.SOPInstanceUID
+                tmp = tempfile.mkdtemp(prefix="dsim-c18-")
+                old_cfg = _config.STORE_SEND_CHUNKED_DATASET
+                try:
+                    path = os.path.join(tmp, "in.dcm")
+                    enc_ts = ts if not ts.is_compressed else UID(C.EVLE)
+                    ds.save_as(path, enforce_file_format=True, implicit_vr=enc_ts.is_implicit_VR, little_endian=enc_ts.is_little_endian)
+                    _config.STORE_SEND_CHUNKED_DATASET = True
+                    st = assoc.send_c_store(path, msg_id=10 + i)
+                    out = st.Status if st is not None and "Status" in st else "empty"
+                finally:
+                    _config.STORE_SEND_CHUNKED_DATASET = old_cfg
+                    shutil.rmtree(tmp, ignore_errors=True)
+            elif op["op"] == "ups_nget":
+                st, _ds = assoc.send_n_get([0x00100010], UPS_PUSH, "1.2.3.4.77", msg_id=10 + i)
+                out = st.Status if st is not None and "Status" in st else "empty"
+            elif op["op"] == "ups_naction":
+                st, _ds = assoc.send_n_action(C.small_ds(3), 1, UPS_PUSH, "1.2.3.4.77", msg_id=10 + i)
                 out = st.Status if st is not None and "Status" in st else "empty"
             elif op["op"] == "find":
                 out = [s.Status if s is not None and "Status" in s else "empty" for s, _ in assoc.send_c_find(C.small_ds(0), C.PR_FIND, msg_id=10 + i)]
@@ -177,7 +234,9 @@ def check(sc, r):
                 continue
             ab = proposed[m.ctx]["abstract"][0].decode()
             sop = (m.command.get(W.T_AFFECTED_CLASS) or m.command.get(W.T_REQUESTED_CLASS) or b"").decode()
-            if nm != "C-CANCEL-RQ" and sop != ab:
+            if sop == UPS_PUSH and ab in UPS_FAMILY:
+                pass    # documented substitution: a UPS Push operation on an accepted Watch / Pull / Event / Query context
+            elif nm != "C-CANCEL-RQ" and sop != ab:
                 out.append(C.v("abstract-syntax", "C18/abstract-syntax-mismatch/%s/%s" % (who, nm), "%s sent %s for SOP class %s on context %d whose abstract syntax is %s" % (who, nm, sop, m.ctx, ab)))
             # role: the requestor is SCU by default; role selection (accepted) may change that
             key = ab.encode()
@@ -208,6 +267,11 @@ def check(sc, r):
             if o["wrote"]:
                 out.append(C.v("raise-writes-nothing", "C18/raised-but-wrote/%s" % op["op"], "%s raised %s but %d writes reached the wire" % (op["op"], o["out"], o["wrote"])))
             continue
+        if op["op"] == "store_file":
+            m = next((x for x in rmsgs if x.command and x.name == "C-STORE-RQ" and x.command.get(W.T_MESSAGE_ID) == 10 + i), None)
+            if m is not None and m.ctx in accepted and accepted[m.ctx] != op["ts"]:
+                out.append(C.v("conversion", "C18/file-sent-on-other-syntax/%s-on-%s" % (op["ts"].split(".")[-1], accepted[m.ctx].split(".")[-1]),
+                               "a file encoded in %s was sent as it is on a context with transfer syntax %s" % (op["ts"], accepted[m.ctx])))
         if op["op"] == "store":
             m = next((x for x in rmsgs if x.command and x.name == "C-STORE-RQ" and x.command.get(W.T_MESSAGE_ID) == 10 + i), None)
             if m is None or m.ctx not in accepted:
